@@ -523,4 +523,31 @@ example : ∃ tail, (toEntry env 42 m ([] ++ [m.stmt]) c1 [] {}).1.dir = denoteG
     (by decide +kernel)
 end Ex
 
+/-! A prefix is scoped per file: submodule `ms` (belongs-to main { prefix ms; }) imports `q` under
+the prefix `m` that module `main` declares for itself; `uses m:params` written in the submodule
+denotes `q`'s grouping, although `main` has a grouping `params` too (seeded change C06-d2). -/
+namespace ExP
+def st (file kw arg : String) (l c : Nat) (subs : List Stmt) : Stmt := .mk kw true arg file l c subs
+def qParams : Stmt := st "q" "grouping" "params" 3 3 [st "q" "leaf" "from-q" 3 20 [st "q" "type" "string" 3 30 []]]
+def qS : Stmt := st "q" "module" "q" 1 1 [st "q" "prefix" "q" 1 12 [], st "q" "namespace" "urn:q" 1 20 [], qParams]
+def mainParams : Stmt := st "main" "grouping" "params" 3 3 [st "main" "leaf" "from-main" 3 20 [st "main" "type" "string" 3 30 []]]
+def mainS : Stmt := st "main" "module" "main" 1 1
+  [st "main" "prefix" "m" 1 12 [], st "main" "namespace" "urn:main" 1 20 [], st "main" "include" "main-sub" 2 3 [], mainParams]
+def usesP : Stmt := st "sub" "uses" "m:params" 5 5 []
+def subTop : Stmt := st "sub" "container" "sub-top" 4 3 [usesP]
+def subS : Stmt := st "sub" "submodule" "main-sub" 1 1
+  [st "sub" "belongs-to" "main" 2 3 [st "sub" "prefix" "ms" 2 20 []],
+   st "sub" "import" "q" 3 3 [st "sub" "prefix" "m" 3 14 []], subTop]
+def q : Mod := { seq := 0, stmt := qS }
+def main : Mod := { seq := 1, stmt := mainS }
+def sub : Mod := { seq := 2, stmt := subS }
+def reg : Registry := { mods := [q, main, sub], modules := [("q", 0), ("main", 1)], subModules := [("main-sub", 2)] }
+
+example : bindGrouping reg [0, 1, 2] sub [subTop] "m:params" = some (qParams, q, [qS]) := by rfl
+example : bindGrouping reg [0, 1, 2] sub [subTop] "ms:params" = some (mainParams, main, [mainS]) := by rfl
+example : bindGrouping reg [0, 1, 2] sub [subTop] "params" = some (mainParams, main, [mainS]) := by rfl
+example : (findGrouping reg [0, 1, 2] 200 sub [subTop, subS] "m:params" []).1 = some (qParams, q, [qS]) :=
+  (uses_binds_import reg [0, 1, 2] sub [subTop] "m:params" 200 (by decide) (by decide) (by decide) (by decide) (by decide)).trans rfl
+end ExP
+
 end Goyang.Props.C06
